@@ -34,6 +34,8 @@ A2I = lambda e: e.a(2)  # noqa
 BASES = {
     'sel-where': (Q(items=[fa(1), fa(2), NR], where=('a2 >= 0', lambda e: e.a(2) >= 0)), ['ii', 'ii'], None),
     'sel-where-order-top': (Q(items=[fa(2), fa(1)], where=('a1 != 3', lambda e: e.a(1) != 3), order=[('a2', A2I)], top=2), ['ii', 'ii', 'ii'], None),
+    'sel-where-order-desc-limit': (Q(items=[fa(1), fa(2)], where=('a1 != 3', lambda e: e.a(1) != 3), order=[('a2', A2I)], desc=True, order_suffix='DESC', top=2, top_kw='LIMIT'), ['ii', 'ii', 'ii'], None),
+    'join-order-desc': (Q(items=[fa(2), fb(2), NR], join=join('LEFT JOIN'), order=[('a2', A2I)], desc=True, order_suffix='DESC'), ['ki', 'ki'], ['ki']),
     'sel-order-desc': (Q(items=[fa(1), NR], order=[('a1', lambda e: e.a(1))], desc=True, order_suffix='DESC'), ['ii', 'ii', 'ii'], None),
     'sel-distinct-limit': (Q(items=[fa(1)], distinct='distinct', top=1, top_kw='LIMIT'), ['ii', 'ii', 'ii'], None),
     'sel-distinct-count': (Q(items=[fa(2)], distinct='count', where=('a1 >= 0', lambda e: e.a(1) >= 0)), ['ii', 'ii'], None),
@@ -136,7 +138,7 @@ def respell(q, rnd):
         clauses.append(kw('limit') + ' %d' % q.top)
     rnd.shuffle(clauses)
     desc.append('order=' + '/'.join(c.split(' ')[0].lower() for c in clauses))
-    seps = [' ', '  ', '\t', '\n', ' \n', '\n\t ', '   ']
+    seps = [' ', '  ', '\t', '\n', ' \n', '\n\t ', '   ', ' \t ', '  ']
     use_comments = rnd.random() < 0.4
     text = rnd.choice(['', ' ', '\n', '\t']) + head
     for c in clauses:
@@ -223,7 +225,7 @@ for _c in HOSTILE_LITERALS:
 def obligations(tier, seed):
     obs = []
     quick = tier == 'quick'
-    nvar = 6 if quick else 24
+    nvar = 8 if quick else 24
     for bi, (bname, (q, a, b)) in enumerate(BASES.items()):
         rnd = random.Random(1000 * seed + bi)
         seen = set()
